@@ -1,9 +1,10 @@
 CONFIG = {
     "level": "proof",
-    "level_text": "Lean theorems (kernel-checked) on the layered-state delivery model: a transaction rejected at decode/authentication changes nothing; authentication changes exactly nonce+1, balance-fee, fee accumulator; a failing handler whose trace does not touch layer 0 leaves the post-authentication state. The tie is REGENERATED: tools/gen handlerfacts translates every ExecuteTx / ExecuteMessage handler of the consensus apps (staking, registry, governance, roothash, vault, beacon x3, keymanager secrets/churp) from /repo's current Go source into control-flow skeletons; the Lean analysis `flagged` (dirty flag per NewTransaction layer, state-wrapper-to-layer binding, error-branch correlation) is evaluated by the kernel (decide +kernel) and must equal the hand-justified expectation table, and every state-wrapper method seen must be classified read/write.",
+    "level_text": "Lean theorems (kernel-checked) on the layered-state delivery model: a transaction rejected at decode/authentication changes nothing; authentication changes exactly nonce+1, balance-fee, fee accumulator; a failing handler whose trace does not touch layer 0 leaves the post-authentication state. The tie is REGENERATED: tools/gen handlerfacts translates every ExecuteTx / ExecuteMessage handler of the consensus apps (staking, registry, governance, roothash, vault, beacon x3, keymanager secrets/churp) from /repo's current Go source into control-flow skeletons; the Lean analysis `flagged` (dirty flag per NewTransaction layer, state-wrapper-to-layer binding, error-branch correlation) is evaluated by the kernel (decide +kernel) and must equal the hand-justified expectation table, and every state-wrapper method seen must be classified read/write. The analysis is PROVED SOUND (OasisProofs/Props/C08Sound.lean, by rule induction over a concrete nondeterministic path semantics of the skeleton language, OasisModel/Handlers/FlowSem.lean): if `flagged` reports the list L for a skeleton, every path that ends in an ordinary error return and whose trace touches layer 0 returns through a site of L (flagged_sound_sites); with L = [] the block state tree is unchanged (flagged_sound_state); composed with the kernel-checked table for every regenerated root in handlers_sound / clean_handlers_sound. The proof forced three repairs of the analysis (loops unrolled to a fixpoint instead of three times; `return st.Set(..)` in a callee may be a state-unavailable failure, not ok; `return` inside a function literal leaves the literal) - each with a counterexample flow kept as an example.",
     "technique": "Lean 4 proof on delivery model + regenerated handler control-flow facts checked by kernel evaluation",
     "models": [],
     "lean_sources": ["OasisModel/Handlers"],
+    "extra_theorem_files": [{"file": "OasisProofs/Props/C08Sound.lean", "namespace": "OasisProofs.C08Sound"}],
     "regen": [{"kind": "handlerfacts", "out": "HandlerFacts.lean"}],
     "generated_obligations": 17,
     "drivers": [
@@ -13,13 +14,14 @@ CONFIG = {
     ],
     "trusted_base": [
         "Lean 4.33 kernel; `decide +kernel` (kernel evaluation, no extra axioms) for the regenerated tables",
-        "tools/gen/handlerfacts.go (go/ast syntax translation of handlers to Flow, ~600 lines) and the analysis OasisModel/Handlers/Flow.lean: the analysis is executable Lean evaluated by the kernel but its soundness w.r.t. a concrete path semantics is NOT proved here (sanity examples only) — it is part of the trusted base of this tie",
+        "tools/gen/handlerfacts.go (go/ast syntax translation of handlers to Flow, ~600 lines): that the paths of the Go handler are among the paths of the generated Flow term under the semantics OasisModel/Handlers/FlowSem.lean (`Path`) - in particular its treatment of break/continue (translated to skip), of wrapper/context aliasing by identifier, and the read/write classification by method name - is trusted, not proved",
+        "OasisModel/Handlers/FlowSem.lean: the path semantics is the specification of what a Flow term means (layers, wrapper binding, error-branch selection, closing of overlays at call exit); the analysis `flagged` itself is NO LONGER trusted: it is proved sound against this semantics (Props/C08Sound.lean)",
         "the justification comments of the expectation table in OasisProofs/Props/C08.lean (hand-written, each flagged return site argued unreachable on available state)",
     ],
     "assumptions": [
         "state-read/write failures are state-unavailable errors, which the multiplexer turns into a halt, not a failed transaction",
         "methods classified as reads do not modify state",
     ],
-    "partial": "Handlers are covered by regenerated control-flow facts, not by a full semantic model; vault/keymanager/beacon/roothash bodies are only in the facts. CheckTx/simulation purity (separate trees) is not in the Lean model. Second tie: ledgerdrv -spec c08 drives the REAL staking app (AuthenticateTx + ExecuteTx as processTx does, gas limits exhausting at the byte charge / the operation charge / never) and requires, model-free, that a failed transaction leaves the full raw state dump unchanged except the signer's balance (-fee), nonce (+1) and the fee accumulator; the other applications' handlers are covered by the regenerated facts only.",
+    "partial": "Handlers are covered by regenerated control-flow facts (with a proved-sound analysis over a concrete path semantics of the facts language), not by a full semantic model of the Go code: the translator from Go to the facts language stays trusted; vault/keymanager/beacon/roothash bodies are only in the facts. CheckTx/simulation purity (separate trees) is not in the Lean model. Second tie: ledgerdrv -spec c08 drives the REAL staking app (AuthenticateTx + ExecuteTx as processTx does, gas limits exhausting at the byte charge / the operation charge / never) and requires, model-free, that a failed transaction leaves the full raw state dump unchanged except the signer's balance (-fee), nonce (+1) and the fee accumulator; the other applications' handlers are covered by the regenerated facts only.",
     "explanation": "Model theorems + regenerated handler facts (17 roots: authentication, post-execute, 15 handler roots).",
 }
